@@ -219,8 +219,12 @@ def finish(prop, tier, seed, obs, errs, t0, info, replay_fn=None):
     os.makedirs(EVID, exist_ok=True)
     os.makedirs(REPL, exist_ok=True)
     findings = load_findings()
+    import glob
+    for old in glob.glob(os.path.join(REPL, "%s-*.json" % prop)):
+        os.unlink(old)
     stats = [o for o in obs if "_stats" in o]
-    obs = [o for o in obs if "_stats" not in o]
+    notapp = [o for o in obs if "_notapplicable" in o]
+    obs = [o for o in obs if "_stats" not in o and "_notapplicable" not in o]
     failed = [o for o in obs if o["status"] in (FAILED, UNDECIDED)]
     crashed = [o for o in obs if o["status"] == ERROR]
     violations, known = [], []
@@ -343,6 +347,7 @@ def finish(prop, tier, seed, obs, errs, t0, info, replay_fn=None):
         rule=info.get("rule", "one obligation per (function, clause, shape, path); distinct by id"),
         samples=samples, engine_stats=agg,
         known_findings=sorted(seen_kf), task_errors=errs[:5],
+        proof_not_applicable=[dict(function=o["_notapplicable"], reason=o["reason"][:300]) for o in notapp],
         exhaustive=False,
     )
     cov.update(info.get("extra", {}))
@@ -352,6 +357,9 @@ def finish(prop, tier, seed, obs, errs, t0, info, replay_fn=None):
     with open(os.path.join(EVID, "%s.json" % prop), "w") as f:
         json.dump(jsonable(ev), f, indent=1)
 
+    for o in notapp:
+        lines.append("NOTE: engine V does not apply to %s on this tree (%s); its bounded contract checks still ran" % (
+            o["_notapplicable"], o["reason"][:160]))
     for ln in lines:
         print(ln)
     print("%s tier=%s obligations=%d discharged=%d (unbounded %d/%d, bounded %d/%d) known=%d violations=%d wall=%.1fs" % (
